@@ -1686,13 +1686,16 @@ void tNMEA2000::FindFreeCANMsgIndex(unsigned long PGN, unsigned char Source, uns
 
   // A slot, which already holds unfinished message of this sender, must be reused even if there is a free slot
   // before it. Otherwise one sender can reserve several slots and messages of other senders get dropped.
+  // Fast packet continuation frames are matched to a slot by PGN and source only, so the first frame must find
+  // the slot in the same way: new first frame supersedes unfinished message of the same PGN and source also,
+  // when it was addressed to other destination. ISO TP sessions are still separated by destination.
   for (MsgIndex=0;
        MsgIndex<MaxN2kCANMsgs &&
        !( N2kCANMsgBuf[MsgIndex].N2kMsg.PGN==PGN
           && N2kCANMsgBuf[MsgIndex].N2kMsg.Source==Source
-          && N2kCANMsgBuf[MsgIndex].N2kMsg.Destination==Destination
 #if !defined(N2K_NO_ISO_MULTI_PACKET_SUPPORT)
           && N2kCANMsgBuf[MsgIndex].N2kMsg.IsTPMessage()==TPMsg
+          && ( !TPMsg || N2kCANMsgBuf[MsgIndex].N2kMsg.Destination==Destination )
 #endif
         );
        MsgIndex++);
